@@ -191,8 +191,9 @@ def arc_length_3point(p_start: NPPointType, p_btw: NPPointType, p_end: NPPointTy
     # The radius from r1 and from r3 will be identical
     radius = rad_end
 
-    # Determine the angle
-    angle = np.arccos((rad_start.dot(rad_end)) / (mag1 * mag3))
+    # Determine the angle; rounding can push the cosine of (nearly) opposite or coincident
+    # radii slightly out of [-1, 1] where arccos returns nan
+    angle = np.arccos(np.clip((rad_start.dot(rad_end)) / (mag1 * mag3), -1.0, 1.0))
 
     # Check if the vectors define an exterior or an interior arcEdge
     if np.dot(np.cross(rad_start, rad_btw), np.cross(rad_start, rad_end)) < 0:
